@@ -71,6 +71,51 @@ where
     }
 }
 
+/// A breaker that still has a plain handle while another handle of it was converted with
+/// with_fallback(..) (one shared breaker, a fallback on one route): calls and views go through
+/// the converted handle; force_open goes through the plain one, force_closed and reset through
+/// the converted one - all of them must act on the one shared circuit.
+struct Pair<C>
+where
+    C: FailureClassifier<Resp, InnerErr> + Send + Sync + 'static,
+{
+    plain: CircuitBreaker<GatedInner, C>,
+    converted: WithFb<C>,
+}
+
+impl<C> Cb for Pair<C>
+where
+    C: FailureClassifier<Resp, InnerErr> + Send + Sync + 'static,
+{
+    fn clone_box(&self) -> Box<dyn Cb> {
+        Box::new(Pair { plain: self.plain.clone(), converted: self.converted.clone() })
+    }
+    fn start_call(&mut self, req: Req) -> CallerFut {
+        self.converted.start_call(req)
+    }
+    fn state_sync(&self) -> CircuitState {
+        WithFb::<C>::state_sync(&self.converted)
+    }
+    fn is_open(&self) -> bool {
+        WithFb::<C>::is_open(&self.converted)
+    }
+    fn state(&self) -> BoxFuture<'_, CircuitState> {
+        Box::pin(WithFb::<C>::state(&self.converted))
+    }
+    fn metrics(&self) -> BoxFuture<'_, CircuitMetrics> {
+        Box::pin(WithFb::<C>::metrics(&self.converted))
+    }
+    fn force_open(&self) -> BoxFuture<'_, ()> {
+        Box::pin(CircuitBreaker::force_open(&self.plain))
+    }
+    fn force_closed(&self) -> BoxFuture<'_, ()> {
+        Box::pin(WithFb::<C>::force_closed(&self.converted))
+    }
+    fn reset(&self) -> BoxFuture<'_, ()> {
+        Box::pin(WithFb::<C>::reset(&self.converted))
+    }
+}
+
 type WithFb<C> = tower_resilience_circuitbreaker::CircuitBreakerWithFallback<GatedInner, C, Req, Resp, InnerErr>;
 
 impl<C> Cb for WithFb<C>
@@ -306,7 +351,7 @@ pub fn build_full(cfg: &CbCfg, inner: Shared, origin: tokio::time::Instant, nest
         };
         let svc = layer.clone().layer_fn(gi);
         if cfg.fallback {
-            Box::new(svc.with_fallback(fb.clone()))
+            Box::new(Pair { plain: svc.clone(), converted: svc.with_fallback(fb.clone()) })
         } else {
             Box::new(svc)
         }
@@ -314,7 +359,7 @@ pub fn build_full(cfg: &CbCfg, inner: Shared, origin: tokio::time::Instant, nest
         let layer = settings(start(cfg), cfg, &inner, origin, &log, &nest, &gate_s).build();
         let svc = layer.clone().layer_fn(gi);
         if cfg.fallback {
-            Box::new(svc.with_fallback(fb))
+            Box::new(Pair { plain: svc.clone(), converted: svc.with_fallback(fb) })
         } else {
             Box::new(svc)
         }
